@@ -169,6 +169,11 @@ func (c *copier) prepareTargetDir(srcFollowed, src, destPath string, copyDirCont
 			// destPath: joining it would leave the destination
 			base = "."
 		}
+		if base == "." && !fiSrc.IsDir() {
+			// "f/." was resolved to the non-directory f: it lands inside
+			// destPath under its own name, destPath itself is not the target
+			base = filepath.Base(filepath.Join(string(filepath.Separator), src))
+		}
 		destPath = filepath.Join(destPath, base)
 	}
 
